@@ -133,7 +133,19 @@ impl Outcome {
 
 // ------------------------------------------------------------------------------------------- IPC
 
+/// run a decoder, mapping a panic to the verdict `PANIC` (compared across chunkings like any other)
+fn no_panic<F: FnOnce() -> Outcome>(f: F) -> Outcome {
+    match std::panic::catch_unwind(std::panic::AssertUnwindSafe(f)) {
+        Ok(o) => o,
+        Err(_) => Outcome { batches: vec![], schema: None, verdict: "PANIC".into() },
+    }
+}
+
 fn ipc_push(chunks: &[&[u8]]) -> Outcome {
+    no_panic(|| ipc_push_inner(chunks))
+}
+
+fn ipc_push_inner(chunks: &[&[u8]]) -> Outcome {
     let mut d = StreamDecoder::new();
     let mut batches = vec![];
     let mut verdict = None;
@@ -170,6 +182,10 @@ fn ipc_push(chunks: &[&[u8]]) -> Outcome {
 }
 
 fn ipc_pull(data: &[u8]) -> Outcome {
+    no_panic(|| ipc_pull_inner(data))
+}
+
+fn ipc_pull_inner(data: &[u8]) -> Outcome {
     match StreamReader::try_new(std::io::Cursor::new(data.to_vec()), None) {
         Err(e) => Outcome { batches: vec![], schema: None, verdict: format!("ERR:open:{}", err_class(&e)) },
         Ok(r) => {
@@ -364,6 +380,10 @@ fn ipc_oracles(data: &[u8], sizes: &[usize], given: &Outcome, fails: &mut Vec<(S
     let _ = sizes;
     // one-shot pull reader: same batches; the pull reader reports problems as read errors, the
     // push decoder as decode/finish errors: compare ok-ness and the batches delivered
+    if data.is_empty() {
+        // zero bytes: the pull reader cannot be constructed (no schema), the push decoder has simply seen nothing
+        return;
+    }
     let pull = ipc_pull(data);
     let ok_push = single.verdict == "ok";
     let ok_pull = pull.verdict == "ok";
@@ -420,6 +440,8 @@ fn gen_ipc(rng: &mut Rng) -> (String, String) {
     let mut out: Vec<u8> = vec![];
     let mut table = vec![];
     let mut boundaries = vec![];
+    let mut pending_pos: Vec<usize> = vec![];
+    let mut msg_ends: Vec<usize> = vec![];
     let early_eos = if rng.chance(1, 10) { Some(rng.usize(plan.len() + 1)) } else { None };
     for (k, &i) in plan.iter().enumerate() {
         if early_eos == Some(k) {
@@ -441,16 +463,18 @@ fn gen_ipc(rng: &mut Rng) -> (String, String) {
         out.extend_from_slice(&p.body);
         if p.body.is_empty() {
             tags.push("empty-body".into());
+            if early_eos.map_or(true, |e| k < e) {
+                pending_pos.push(out.len());
+            }
+        }
+        if early_eos.map_or(true, |e| k < e) {
+            msg_ends.push(out.len());
         }
     }
     boundaries.push(out.len());
-    let last_empty_body = plan.last().map(|&i| pieces[i].body.is_empty()).unwrap_or(false);
     match rng.below(8) {
         0 => {
             tags.push("end:no-eos".into());
-            if last_empty_body && early_eos.is_none() {
-                tags.push("finding:ipc-pending-empty-body".into());
-            }
         }
         1 => {
             out.extend_from_slice(&[0xff, 0xff, 0xff, 0xff, 0, 0, 0, 0]);
@@ -473,6 +497,16 @@ fn gen_ipc(rng: &mut Rng) -> (String, String) {
             out.extend_from_slice(&[0xff, 0xff, 0xff, 0xff, 0, 0, 0, 0]);
             tags.push("end:eos".into());
         }
+    }
+    // the stream ends exactly after the metadata of a message with an empty body: the push decoder
+    // has not dispatched that message yet (see report: differs from the pull reader)
+    if pending_pos.contains(&out.len()) {
+        tags.push("finding:ipc-pending-empty-body".into());
+    }
+    // the stream ends 1..3 bytes into the next length prefix: `StreamReader::read_meta_len` maps the
+    // UnexpectedEof of its first read_exact to a clean end of stream, the push decoder reports it
+    if msg_ends.iter().any(|&e| out.len() > e && out.len() - e <= 3) {
+        tags.push("finding:ipc-pull-partial-prefix".into());
     }
     boundaries.retain(|&b| b <= out.len());
     let (sizes, chname) = gen_chunks(rng, out.len(), &boundaries);
@@ -577,6 +611,10 @@ fn json_builder(mode: &str, batch_size: usize) -> arrow_json::ReaderBuilder {
 
 /// push protocol: decode; when it stops short of the chunk the batch is full: flush and go on
 fn json_push(mode: &str, batch_size: usize, chunks: &[&[u8]]) -> Outcome {
+    no_panic(|| json_push_inner(mode, batch_size, chunks))
+}
+
+fn json_push_inner(mode: &str, batch_size: usize, chunks: &[&[u8]]) -> Outcome {
     let mut d = json_builder(mode, batch_size).build_decoder().unwrap();
     let mut batches = vec![];
     for c in chunks {
@@ -612,6 +650,10 @@ fn json_push(mode: &str, batch_size: usize, chunks: &[&[u8]]) -> Outcome {
 }
 
 fn json_pull(mode: &str, batch_size: usize, chunks: Vec<&[u8]>) -> Outcome {
+    no_panic(|| json_pull_inner(mode, batch_size, chunks))
+}
+
+fn json_pull_inner(mode: &str, batch_size: usize, chunks: Vec<&[u8]>) -> Outcome {
     let r = json_builder(mode, batch_size).build(ChunkedRead::new(chunks)).unwrap();
     let mut batches = vec![];
     let mut verdict = "ok".to_string();
@@ -890,6 +932,10 @@ fn csv_builder(bs: usize, header: bool, ncols: usize) -> arrow_csv::ReaderBuilde
 
 /// the documented push loop (see `arrow_csv::reader::Decoder`), driven by a chunk list
 fn csv_push(bs: usize, header: bool, ncols: usize, chunks: Vec<&[u8]>) -> Outcome {
+    no_panic(|| csv_push_inner(bs, header, ncols, chunks))
+}
+
+fn csv_push_inner(bs: usize, header: bool, ncols: usize, chunks: Vec<&[u8]>) -> Outcome {
     let mut reader = ChunkedRead::new(chunks);
     let mut d = csv_builder(bs, header, ncols).build_decoder();
     let mut batches = vec![];
@@ -915,6 +961,10 @@ fn csv_push(bs: usize, header: bool, ncols: usize, chunks: Vec<&[u8]>) -> Outcom
 }
 
 fn csv_pull(bs: usize, header: bool, ncols: usize, chunks: Vec<&[u8]>, buffered: bool) -> Outcome {
+    no_panic(|| csv_pull_inner(bs, header, ncols, chunks, buffered))
+}
+
+fn csv_pull_inner(bs: usize, header: bool, ncols: usize, chunks: Vec<&[u8]>, buffered: bool) -> Outcome {
     let mut batches = vec![];
     let mut verdict = "ok".to_string();
     let mut take = |it: &mut dyn Iterator<Item = Result<RecordBatch, ArrowError>>| {
